@@ -208,7 +208,7 @@ _add(
         "Oracle: written parts vs. tree children (AHB parser and resolver), reference selection of the first fulfilled part, selected part's "
         "outcome vs. evaluating its own condition expression alone (resolved and unresolved tree). distinct non-trivial = distinct expressions with >= 2 parts"
     ),
-    deciding={"any": {"ahb_expressions": 300, "spelling_variants": 150, "form:bare": 20, "form:prefix": 50, "form:modal": 150, "later_part_selected": 100, "evaluations_with_unknown_part": 50, "evaluations_with_shipped_evaluators": 200}},
+    deciding={"any": {"ahb_expressions": 300, "spelling_variants": 150, "form:bare": 20, "form:prefix": 50, "form:modal": 150, "later_part_selected": 100, "evaluations_with_unknown_part": 50, "evaluations_with_shipped_evaluators": 200, "ahb_expressions_written_with_packages": 50}},
     headline=["ahb_expressions", "spelling_variants", "later_part_selected", "evaluations_with_unknown_part"],
 )
 
@@ -278,7 +278,7 @@ _add(
         "NotImplementedError iff a visited MUSS/prefix node is UNKNOWN; validate_segment_level on a random sub-tree. distinct non-trivial = "
         "distinct (tree, assignment, flag) with depth >= 3 or pruning"
     ),
-    deciding={"any": {"trees": 100, "nodes_reported": 1500, "trees_with_pruning": 30, "runs_expecting_not_implemented": 3, "segment_level_calls": 50, "runs_with_concurrently_parked_awaitables": 50, "sequence_runs": 50, "runs_with_shipped_evaluators": 30, "trees_with_line_indexes": 50, "calls_with_explicit_parent_status": 50, "explicit_parent:IS_FORBIDDEN": 5, "trees_written_with_packages": 30}},
+    deciding={"any": {"trees": 100, "nodes_reported": 1500, "trees_with_pruning": 30, "runs_expecting_not_implemented": 3, "segment_level_calls": 50, "runs_with_concurrently_parked_awaitables": 50, "sequence_runs": 50, "runs_with_shipped_evaluators": 30, "trees_with_line_indexes": 50, "calls_with_explicit_parent_status": 50, "explicit_parent:IS_FORBIDDEN": 5, "trees_written_with_packages": 30, "trees_with_a_very_wide_node": 3}},
     headline=["trees", "nodes_reported", "nodes_pruned", "runs_expecting_not_implemented", "segment_level_calls"],
 )
 
@@ -347,7 +347,7 @@ _add(
         "order, accept / flag-and-empty / forbidden per the property statement. distinct non-trivial = distinct (pool with >= 2 entries, "
         "assignment, parent, entry point)"
     ),
-    deciding={"any": {"pool_cases": 1000, "offered_none": 100, "input:offered": 100, "input:pool-member-not-offered": 50, "input:foreign": 100, "input:absent": 100, "parent:IS_FORBIDDEN": 50, "via_segment_forbidden": 10}},
+    deciding={"any": {"pool_cases": 1000, "offered_none": 100, "input:offered": 100, "input:pool-member-not-offered": 50, "input:foreign": 100, "input:absent": 100, "parent:IS_FORBIDDEN": 50, "via_segment_forbidden": 10, "input:fragment-of-offered": 100}},
     headline=["pool_cases", "offered_none", "input:offered", "input:pool-member-not-offered", "input:foreign"],
 )
 
@@ -377,7 +377,7 @@ RULE_ADDITIONS = {
     "C05": "fresh keys include the ends of the hint / format-constraint ranges; up to six variants per expression also through the async API, mostly under a random completion order.",
     "C06": "is_valid_expression also on the already resolved tree; a class of expressions built from hints and format constraints alone (the 'directly combines a single hint with a single format constraint' boundary); failing out-of-domain evaluations interleaved with the judged ones.",
     "C08": "message-less constraints through the tree evaluator (Boolean clause only); async evaluations mostly under a random completion order; the library's dictionary / ContentEvaluationResult based evaluators with and without messages; 2-5 concurrent evaluations of one expression with different texts (no foreign text in a message).",
-    "C09": "the first assignment of every expression also through the library's own dictionary / ContentEvaluationResult based evaluators (same result as with equivalent user evaluators).",
+    "C09": "every fifth case an AHB expression whose parts are written with packages (several per part, different nesting depths) evaluated after resolution against the parts' own written-out condition expressions; the first assignment of every expression also through the library's own dictionary / ContentEvaluationResult based evaluators (same result as with equivalent user evaluators).",
     "C10": "half of the cases also through the library's own package resolvers (dictionary based; ContentEvaluationResult based with the same resolver instances and changing data).",
     "C11": "every pool string also goes to the OTHER parser before, during and after the history (must stay a SyntaxError).",
     "C12": "the abbreviated expression must evaluate like the expression with every package written out; the three gather sites called directly (evaluate_conditions also with per-key evaluation contexts, a key asked for twice) under all / sampled orders; the harness evaluator narrows and re-reads its evaluation context around the yield.",
